@@ -145,6 +145,9 @@ var quadtreePost = []postExpect{
 
 var resamplePost = []postExpect{
 	pe(func(e, l string) bool {
+		return strings.HasSuffix(e, "resample.ToInterval") && (strings.Contains(l, "dist=-1") || strings.Contains(l, "dist=0"))
+	}, "a non-positive interval returns nothing (nil)", resultNil(0)),
+	pe(func(e, l string) bool {
 		return strings.HasSuffix(e, "resample.Resample") && (strings.Contains(l, "totalPoints=-1") || strings.Contains(l, "totalPoints=0,") || strings.HasSuffix(l, "totalPoints=0"))
 	}, "a non-positive point count returns nothing (nil)", resultNil(0)),
 	pe(func(e, l string) bool {
